@@ -394,6 +394,14 @@ func (fx *FuncCtx) enterLoop(li *loopInfo, pre *State) *State {
 	}
 	li.headSt = st.clone()
 	if spec != nil {
+		for _, c := range spec.Assumes {
+			t := fx.evalClause(c, fx.clauseEnv(st, fx.entry, nil))
+			fx.assume(st, t)
+			fx.assumes = append(fx.assumes, fmt.Sprintf("assume %s (loop %d): %s (because %s)", c.Label, li.ordinal, c.Text, c.Because))
+			fx.coverProbe(st, fmt.Sprintf("loop%d.assume.%s", li.ordinal, c.Label), t)
+		}
+	}
+	if spec != nil {
 		for _, c := range spec.Invariants {
 			t := fx.evalClause(c, fx.clauseEnv(st, fx.entry, nil))
 			fx.assume(st, t)
